@@ -10,9 +10,14 @@ explicit `IsFlow` hypothesis.  The driver instantiates the state type with symbo
 terms (`STerm`), the harness evaluates them with the closed form.
 
 Line references are to src/mxlpy/simulator.py (S:) and src/mxlpy/integrators/int_scipy.py (I:)
-of the checkout the check runs against (after the two `fix:` commits of F-C04-1 / F-C04-3).
+of the checkout the check runs against (after the `fix:` commits of F-C04-1 / F-C04-3 / F-C04-2).
+
+The comparison operators, `skipfirst` flags, statement orders and defaults that the Python text fixes are not
+written here: they are read from the current source by translate/c04.py (`Gen.*`, Generated/C04Facts.lean),
+so this model follows the code when one of them is edited; Lemmas/C04.lean states the values the proofs need.
 -/
 import MxlVerif.Core.Basic
+import MxlVerif.Generated.C04Facts
 namespace Mxl.C04
 
 /-- exception classes observable at the API -/
@@ -95,7 +100,7 @@ def integrateTimeCourse {σ} (S : Sys σ) (p : Pars) (ig : Integ σ) (pts : List
   match pts with
   | [] => .error .indexError                                  -- time_points[0]
   | h :: _ =>
-    let pts' := if h != ig.t0 then ig.t0 :: pts else pts
+    let pts' := if Gen.prependCmp.eval h ig.t0 then ig.t0 :: pts else pts
     match solveIvp S p ig.y0 pts' with
     | .error e => .error e
     | .ok rows =>
@@ -103,10 +108,43 @@ def integrateTimeCourse {σ} (S : Sys σ) (p : Pars) (ig : Integ σ) (pts : List
       | none => .error .indexError
       | some r => .ok ({ ig with t0 := r.1, y0 := r.2 }, rows)
 
-/-- number of returned points of `Scipy.integrate` (I:87) -/
+/-- number of returned points of `Scipy.integrate` (I:87): `steps = 100 if steps is None else steps + 1` -/
 def nPoints : Option Nat → Nat
-  | none => 100
-  | some k => k + 1
+  | none => Gen.defaultPoints
+  | some k => k + Gen.stepsPlus
+
+/-- `Scipy.integrate` (I:69-91): `integrate_time_course(np.linspace(self.t0, t_end, steps))` -/
+def integrate {σ} (S : Sys σ) (p : Pars) (ig : Integ σ) (tEnd : Rat) (steps : Option Nat) :
+    Except Exc (Integ σ × List (Rat × σ)) :=
+  integrateTimeCourse S p ig (linspace ig.t0 tEnd (nPoints steps))
+
+/-- `Scipy.reset` (I:64-67) -/
+def Integ.reset {σ} (ig : Integ σ) : Integ σ := { ig with t0 := 0, y0 := ig.y0orig }
+
+/-- the loop `for _ in range(max_steps)` (I:161): convergence at iteration `k` (0-based) is seen only when
+    `k < max_steps`; otherwise the loop runs out and `NoSteadyState` is returned -/
+def steadyIter : Option Nat → Option Nat
+  | some k => if k < Gen.maxSteps then some k else none
+  | none => none
+
+/-- the time the loop has advanced by when it stops in iteration `k`: `step_size * (k + 1)` -/
+def steadyDur (k : Nat) : Rat := (Gen.stepSize : Rat) * ((k : Rat) + 1)
+
+/-- `Scipy.integrate_to_steady_state` (I:130-…): a separate `ode` object started from `y0` (at `t0`), stepped in
+    units of `step_size` until two consecutive states are close (`res` = the iteration at which that happened, an
+    input of the model); on success the integrator is advanced to the reported time and state.  Returns the
+    integrator afterwards and the reported row (`none` = `NoSteadyState`). -/
+def integrateToSteadyState {σ} (S : Sys σ) (p : Pars) (ig : Integ σ) (res : Option Nat) :
+    Integ σ × Option (Rat × σ) :=
+  let ig0 := if Gen.steadyResets then ig.reset else ig
+  match steadyIter res with
+  | none => (ig0, none)
+  | some k =>
+    let t := ig0.t0 + steadyDur k
+    -- `set_initial_value(y0)` without a time starts the ode object's clock at 0
+    let dur := if Gen.steadyStartsAtT0 then t - ig0.t0 else t
+    let y := S.flow p dur ig0.y0
+    (if Gen.steadyAdvances then { ig0 with t0 := t, y0 := y } else ig0, some (t, y))
 
 /-! ### Simulator -/
 
@@ -151,19 +189,21 @@ def unshift (sh : Option Rat) (t : Rat) : Rat :=
   | none => t
   | some d => t - d
 
-/-- `Simulator.simulate` (S:285-323) -/
+/-- `Simulator.simulate` (S:304-343) -/
 def simulate {σ} (S : Sys σ) (s : Sim σ) (tEnd : Rat) (steps : Option Nat) : Out (Sim σ) :=
   if s.errors > 0 then (s, none) else
   match reached? s.segs with
   | .error e => (s, some e)
   | .ok prior =>
-    if tEnd ≤ prior then (s, some .valueError) else
     let tRel := unshift s.shift tEnd
-    match integrateTimeCourse S s.pars s.integ (linspace s.integ.t0 tRel (nPoints steps)) with
+    -- the refusal test sees the absolute end iff it stands before `t_end -= self._time_shift`
+    let tCmp := if Gen.simulateChecksBeforeShift then tEnd else tRel
+    if Gen.simulateRefusal.eval tCmp prior then (s, some .valueError) else
+    match integrate S s.pars s.integ tRel steps with
     | .error e => (s, some e)
-    | .ok (ig, rows) => (handle { s with integ := ig } rows true, none)
+    | .ok (ig, rows) => (handle { s with integ := ig } rows Gen.simulateSkipfirst, none)
 
-/-- `Simulator.simulate_time_course` (S:325-369) -/
+/-- `Simulator.simulate_time_course` (S:345-390) -/
 def timeCourse {σ} (S : Sys σ) (s : Sim σ) (pts : List Rat) : Out (Sim σ) :=
   if s.errors > 0 then (s, none) else
   match reached? s.segs with
@@ -172,22 +212,22 @@ def timeCourse {σ} (S : Sys σ) (s : Sim σ) (pts : List Rat) : Out (Sim σ) :=
     match pts.getLast? with
     | none => (s, some .indexError)
     | some last =>
-      if last ≤ prior then (s, some .valueError) else
-      let kept := pts.filter (prior ≤ ·)
+      -- what the two tests compare with `prior_t_end`: the points as given iff the tests stand before
+      -- `time_points -= self._time_shift`
+      let seen := fun t => if Gen.timeCourseChecksBeforeShift then t else unshift s.shift t
+      if Gen.timeCourseRefusal.eval (seen last) prior then (s, some .valueError) else
+      let kept := pts.filter (fun t => Gen.timeCourseKeep.eval (seen t) prior)
       match integrateTimeCourse S s.pars s.integ (kept.map (unshift s.shift)) with
       | .error e => (s, some e)
-      | .ok (ig, rows) => (handle { s with integ := ig } rows true, none)
+      | .ok (ig, rows) => (handle { s with integ := ig } rows Gen.timeCourseSkipfirst, none)
 
-/-- `Simulator.simulate_to_steady_state` (S:478-512) over `Scipy.integrate_to_steady_state`
-    (I:130-173): `reset()`, a separate `ode` object, `t0`/`y0` are not advanced.  `res` is the
-    solver's answer: the time (relative to the reset point) at which it declared a steady state,
-    or `none` for `NoSteadyState`. -/
-def steady {σ} (S : Sys σ) (s : Sim σ) (res : Option Rat) : Out (Sim σ) :=
+/-- `Simulator.simulate_to_steady_state` (S:499-533) over `Scipy.integrate_to_steady_state`.  `res` is the
+    solver's answer: the loop iteration at which it declared a steady state, or `none` for `NoSteadyState`. -/
+def steady {σ} (S : Sys σ) (s : Sim σ) (res : Option Nat) : Out (Sim σ) :=
   if s.errors > 0 then (s, none) else
-  let ig : Integ σ := { s.integ with t0 := 0, y0 := s.integ.y0orig }
-  match res with
-  | none => ({ s with integ := ig, errors := s.errors + 1 }, none)
-  | some t => (handle { s with integ := ig } [(t, S.flow s.pars t ig.y0)] false, none)
+  match integrateToSteadyState S s.pars s.integ res with
+  | (ig, none) => ({ s with integ := ig, errors := s.errors + 1 }, none)
+  | (ig, some row) => (handle { s with integ := ig } [row] Gen.steadySkipfirst, none)
 
 /-- `d[k] = v` for an existing key; `none` when `k` is not a parameter -/
 def parsSet : Pars → Name → Rat → Option Pars
@@ -233,13 +273,14 @@ def updVars {σ} (S : Sys σ) (s : Sim σ) (ov : Upd) : Out (Sim σ) :=
     match lastRow? l with
     | .error e => (s, some e)
     | .ok r =>
-      let base := if s.shift == some r.1 then s.y0 else r.2
+      let base := if Gen.updVarsKeepsAtSameTime && s.shift == some r.1 then s.y0 else r.2
       let y0 := S.ov ov base
       ({ s with y0 := y0, shift := some r.1, integ := reinit y0 }, none)
 
 /-- `Simulator.clear_results` -/
 def clear {σ} (s : Sim σ) : Sim σ :=
-  { s with segs := none, shift := none, errors := 0, integ := reinit s.y0 }
+  { s with segs := none, shift := if Gen.clearResetsShift then none else s.shift,
+           errors := if Gen.clearResetsErrors then 0 else s.errors, integ := reinit s.y0 }
 
 /-- the index of `get_result().variables` (the frames concatenated) -/
 def times {σ} (segs : Option (List (Seg σ))) : List Rat :=
@@ -252,7 +293,7 @@ def allRows {σ} (segs : Option (List (Seg σ))) : List (Rat × σ) :=
 inductive Op where
   | simulate (tEnd : Rat) (steps : Option Nat)
   | timeCourse (pts : List Rat)
-  | steady (res : Option Rat)
+  | steady (res : Option Nat)
   | updPars (kvs : Upd)
   | updVars (ov : Upd)
   | clear
@@ -323,11 +364,13 @@ def timeCourse {σ} (S : Sys σ) (a : Spec σ) (pts : List Rat) : Out (Spec σ) 
     if !strictInc grid then (a, some .valueError) else
     (record S a grid last, none)
 
-def steady {σ} (S : Sys σ) (a : Spec σ) (res : Option Rat) : Out (Spec σ) :=
+/-- a steady-state run continues from (`now`, `cur`) for as long as the solver's loop ran -/
+def steady {σ} (S : Sys σ) (a : Spec σ) (res : Option Nat) : Out (Spec σ) :=
   if a.failed then (a, none) else
-  match res with
+  match steadyIter res with
   | none => ({ a with failed := true }, none)
-  | some d =>
+  | some k =>
+    let d := steadyDur k
     let y := S.flow a.pars d a.cur
     ({ a with segs := some (appendSeg a.segs [(a.now + d, y)] a.pars false),
               now := a.now + d, cur := y }, none)
@@ -366,35 +409,6 @@ def runStop {σ} (S : Sys σ) (a : Spec σ) : List Op → Out (Spec σ)
     | (a', some e) => (a', some e)
 
 end Spec
-
-/-! ### the finding class F-C04-2 as a decidable predicate on histories -/
-
-/-- what a history has done to the integrator, read off the ops alone:
-    `steadyOK` — the integrator has not advanced since it was (re)initialised, so `reset()` is harmless;
-    `simOK` — the integrator's continuation point is the end of the results. -/
-structure HSt where
-  steadyOK : Bool
-  simOK : Bool
-deriving DecidableEq, Repr
-
-def HSt.next (h : HSt) : Op → Option HSt
-  | .simulate _ _ => if h.simOK then some ⟨false, true⟩ else none
-  | .timeCourse _ => if h.simOK then some ⟨false, true⟩ else none
-  | .steady r =>
-    if h.steadyOK && (match r with | none => true | some d => 0 < d) then some ⟨false, false⟩ else none
-  | .updPars _ => some h
-  | .updVars _ => some ⟨true, true⟩
-  | .clear => some ⟨true, true⟩
-
-/-- no steady-state run on an integrator that has advanced, no simulation on an integrator a
-    steady-state run has left behind; the solver's reported steady-state time is positive -/
-def okHist (h : HSt) : List Op → Bool
-  | [] => true
-  | op :: rest => match h.next op with
-    | none => false
-    | some h' => okHist h' rest
-
-def HSt.start : HSt := ⟨true, true⟩
 
 /-! ### symbolic states for the driver -/
 
